@@ -300,6 +300,9 @@ def run_case(ctx, case):
             continue
         pre_b = _snap_clean(_snap(B))
         ra = kl.ev(A, s["text"])
+        if kl.state_size(A, 20000) > 20000 or (ra[0] == "ok" and kl.value_size(ra[1], 20000) > 20000):
+            cnt["histories_cut_oversized"] = 1
+            break
         rb = kl.ev(B, s["text"])
         post_a, post_b = _snap_clean(_snap(A)), _snap_clean(_snap(B))
         if "def" in s:
